@@ -924,6 +924,10 @@ def _int_or_none(val: str) -> int | None:
     val = val.strip()
     if val == "":
         return None
+    if not val.isascii() or not val.isdigit():
+        # int() also accepts signs, underscores and non-ASCII digits,
+        # none of which are part of the byte-range grammar.
+        raise ValueError("invalid byte position %r" % val)
     return int(val)
 
 
